@@ -1,4 +1,4 @@
-\* quick: 2 nodes, 2 entries, 1 restart, 1 snapshot sync, <=2 leadership changes, endpoint up
+\* quick: 2 nodes, 2 entries, 1 restart, 1 snapshot sync, <=2 leadership signals (a restart forgets the last one), endpoint up
 SPECIFICATION Spec
 CONSTANTS
   Node = {n1, n2}
@@ -7,6 +7,7 @@ CONSTANTS
   BatchSz = 2
   InCap = 0
   AsyncHWM = FALSE
+  SigCap = 2
   MaxFlips = 2
   MaxLeaders = 1
   MaxRestarts = 1
@@ -20,7 +21,8 @@ CONSTANTS
   HWMAfterSendOK = TRUE
   PruneToHWMOnly = TRUE
   RewindCursor = TRUE
+  ParkedKeptUntilSent = TRUE
   RestartHWMBelowLowest = TRUE
   DropReapplied = TRUE
 SYMMETRY Sym
-INVARIANTS TypeOK Labelled NoSkip TenureOrder TakenStored KeysBounded
+INVARIANTS TypeOK Labelled NoSkip TenureOrder TakenStored KeysBounded LoopShape
